@@ -7,7 +7,7 @@ from __future__ import annotations
 
 from collections import Counter
 from dataclasses import dataclass, field
-from typing import Any
+from typing import Any, ClassVar
 
 from entity_query_language import symbol, predicate, Predicate
 
@@ -213,6 +213,7 @@ def f_ok(x):
 class CGt(Predicate):
     x: Any
     k: Any
+    is_expensive: ClassVar[bool] = True       # the documented hint "this predicate is costly": must not change any answer
 
     def __call__(self):
         PRED_CALLS["CGt"] += 1
